@@ -45,6 +45,7 @@ QUICK_SC = ["ssl3-rsa", "tls10-dhe_rsa", "tls11-ecdhe_ecdsa", "tls12-rsa",
             "tls13-clientauth", "tls13-alpn-tickets", "default-default"]
 
 MEM_BOUND = 64 << 20
+RSS_BOUND = 24 << 20      # growth of the process high-water mark in one case
 MEM_PER_BYTE = 64
 
 
@@ -285,10 +286,9 @@ def plan(ctx, sc, role, label):
                     ops += mut.der_ops(raw, rng, want=ctx.pick(6, 40))
             if ctx.quick:
                 # sample operators but always keep the bombs
-                keep = [o for o in ops if o[0].startswith(("zbomb",
-                                                           "ext_u16="))]
-                rest = [o for o in ops if not o[0].startswith(("zbomb",
-                                                               "ext_u16="))]
+                always = ("zbomb", "ext_u16=", "psk_")
+                keep = [o for o in ops if o[0].startswith(always)]
+                rest = [o for o in ops if not o[0].startswith(always)]
                 rng.shuffle(rest)
                 ops = keep + rest[:16]
             allops[i] = ops
@@ -428,7 +428,7 @@ def judge(ctx, key, W, R, adv, role, work, budget, peak, sent_bytes):
             ctx.violation(dict(key, clause="memory", meter="tracemalloc"),
                           dict(W, peak=peak, bound=bound, sent=sent_bytes),
                           "peak traced allocation %d > %d" % (peak, bound))
-    if R.rss_growth > bound:
+    if R.rss_growth > RSS_BOUND + MEM_PER_BYTE * sent_bytes:
         ctx.violation(dict(key, clause="memory", meter="rss"),
                       dict(W, growth=R.rss_growth, bound=bound),
                       "RSS high-water mark grew by %d" % R.rss_growth)
@@ -526,7 +526,8 @@ def run_case(ctx, cid, P):
     bomb = name.startswith("zbomb") or name in ("hs_len_max", "lf_lenmax",
                                                 "hs_len_64k")
     R, adv, work, peak = run_one(sc, P["label"], role, target=i, new=newb,
-                                 budget=budget, trace_mem=bomb,
+                                 budget=budget,
+                                 trace_mem=bomb and "brotli" not in name,
                                  close_socket=close_socket)
     if not adv.applied:
         ctx.count("not_applied")
